@@ -35,6 +35,7 @@ type Runner struct {
 	Col    models.Collection
 	// generation bias only (never used for verdicts)
 	believedLive map[int]bool
+	MaxBatch     int // largest random batch (default 5)
 	// counters
 	Batches int
 	Errors  []string
@@ -72,7 +73,7 @@ func (r *Runner) Open(histNo int) error {
 		return err
 	}
 	r.Shard = s
-	r.TW.Emit("Reset", M{"schema": r.Cfg.AbsSchema(), "pool": PoolRelations(MaxID), "limit": LimitModel, "cfg": r.Cfg.Name, "mem": b2i(r.Cfg.Mem)})
+	r.TW.Emit("Reset", M{"schema": r.Cfg.AbsSchema(), "pool": PoolRelations(r.Cfg.N()), "limit": LimitModel, "cfg": r.Cfg.Name, "mem": b2i(r.Cfg.Mem)})
 	return nil
 }
 
@@ -281,7 +282,7 @@ func (r *Runner) Get(ids []int) {
 	if len(ids) == 0 {
 		return
 	}
-	res, err := r.Shard.SearchPoints(models.SearchRequest{Query: idQuery(ids), Select: []string{"*"}, Limit: 100})
+	res, err := r.Shard.SearchPoints(models.SearchRequest{Query: idQuery(ids), Select: []string{"*"}, Limit: 100000})
 	if err != nil {
 		r.obsErr("Get", err)
 		return
@@ -302,8 +303,8 @@ func (r *Runner) Get(ids []int) {
 	r.TW.Emit("Get", M{"ids": ids, "docs": docs})
 }
 
-func allIDs() []int {
-	out := make([]int, MaxID)
+func (r *Runner) allIDs() []int {
+	out := make([]int, r.Cfg.N())
 	for i := range out {
 		out[i] = i + 1
 	}
@@ -326,9 +327,9 @@ func (r *Runner) pickIDs(n int, wantLive float64) []int {
 			sort.Ints(ks)
 			id = ks[r.R.Intn(len(ks))]
 		} else {
-			id = 1 + r.R.Intn(MaxID)
+			id = 1 + r.R.Intn(r.Cfg.N())
 		}
-		if seen[id] && len(seen) < MaxID {
+		if seen[id] && len(seen) < r.Cfg.N() {
 			continue
 		}
 		seen[id] = true
@@ -337,9 +338,42 @@ func (r *Runner) pickIDs(n int, wantLive float64) []int {
 	return out
 }
 
-func (r *Runner) RandomBatch() {
+// pickFresh returns up to n distinct ids believed not to be stored.
+func (r *Runner) pickFresh(n int) []int {
+	var cand []int
+	for id := 1; id <= r.Cfg.N(); id++ {
+		if !r.believedLive[id] {
+			cand = append(cand, id)
+		}
+	}
+	r.R.Shuffle(len(cand), func(i, j int) { cand[i], cand[j] = cand[j], cand[i] })
+	if n > len(cand) {
+		n = len(cand)
+	}
+	return cand[:n]
+}
+
+// InsertBatch issues an insert batch of fresh ids only.
+func (r *Runner) InsertBatch() {
+	var b []GenPoint
+	mb := r.MaxBatch
+	if mb == 0 {
+		mb = 5
+	}
+	for _, id := range r.pickFresh(1 + r.R.Intn(mb)) {
+		b = append(b, GenPoint{id, r.G.Doc(false, 0.9)})
+	}
+	r.Insert(b)
+}
+
+// RandomBatch issues one random write batch and returns its kind.
+func (r *Runner) RandomBatch() string {
 	x := r.R.Float64()
-	n := r.R.Intn(6)
+	mb := r.MaxBatch
+	if mb == 0 {
+		mb = 5
+	}
+	n := r.R.Intn(mb + 1)
 	if r.R.Intn(10) == 0 {
 		n = 0
 	}
@@ -347,25 +381,30 @@ func (r *Runner) RandomBatch() {
 	case x < 0.45:
 		// insert: mostly fresh ids; sometimes an existing id or a duplicate
 		var b []GenPoint
-		for _, id := range r.pickIDs(n, 0.08) {
-			if r.Cfg.Mem && r.believedLive[id] {
-				// the memory backend has no rollback: the properties speak
-				// about it only for histories of successful batches
-				continue
-			}
+		ids := r.pickFresh(n)
+		if len(ids) > 0 && r.R.Intn(8) == 0 && !r.Cfg.Mem {
+			// an id that is already stored: the whole batch must be rejected
+			// (never on the memory backend, which has no rollback: the
+			// properties speak about it only for histories of successful batches)
+			ids[r.R.Intn(len(ids))] = r.pickIDs(1, 1)[0]
+		}
+		for _, id := range ids {
 			b = append(b, GenPoint{id, r.G.Doc(false, 0.8)})
 		}
 		if len(b) > 0 && r.R.Intn(12) == 0 && !r.Cfg.Mem {
 			b = append(b, GenPoint{b[0].ID, r.G.Doc(false, 0.8)})
 		}
 		r.Insert(b)
+		return "insert"
 	case x < 0.75:
 		var b []GenPoint
 		for _, id := range r.pickIDs(n, 0.8) {
 			b = append(b, GenPoint{id, r.G.Doc(true, 0.5)})
 		}
 		r.Update(b)
+		return "update"
 	default:
 		r.Delete(r.pickIDs(n, 0.7))
+		return "delete"
 	}
 }
